@@ -65,6 +65,9 @@ func runC03(c *Ctx) {
 	c03Cache(c)
 	c03ExtensionRegistration(c)
 	c03RuleSwapPaired(c)
+	ruleSwapControlEquivalent(c)
+	dispatchOnce(c)
+	adaptersCallReceiver(c)
 	c03NoGlobalRuleMutation(c, "C03")
 	// what a request executes is what *it* named: no member of a pooled request object survives into the next request (C07/pool-reset)
 	c07PoolReset(c)
